@@ -70,6 +70,11 @@ func (t *urlTable) str(k string, v int) string {
 }
 
 func (t *urlTable) url(k string, v int) *url.URL {
+	if _, known := t.base[k]; !known {
+		// a key the table does not have (e.g. "?", what abstract() answers for a URL that is not in the table, which only a
+		// changed implementation produces): a URL that is in no pool, so that the run goes on and the trace shows the effect
+		return &url.URL{Scheme: "http", Host: "not-in-table.invalid", Path: "/" + k}
+	}
 	u, err := url.Parse(t.str(k, v))
 	if err != nil {
 		fatal("url table: %v", err)
